@@ -124,6 +124,21 @@ def run(chk):
     chk.rule = ('%d interleaved histories of about 300 calls: random vnadata history (C15 generator), property-tree history (C13 generator), two vnacal lives with parameters, '
                 'standards of every entry point in varied shapes, invalid calls from the C11 sweep, premature and repeated solves / add_calibration, apply, properties, save, '
                 'deletes in awkward order, and a file thread loading valid and mutated Touchstone / NPD text, saving and converting; line-level interleaving' % N)
+    # empty frequency vectors (a vnacal_new_t of zero frequencies, an apply at zero frequencies) and a save that cannot write
+    if not chk.violations:
+        sc0 = calsim.Scenario(rng, 'T8', 1, 1, 2).begin()
+        sc0.solt().solve().add_calibration(b'c')
+        fixed = sc0.lines + ['cal apply 0 0 m 0 1 1', 'cal new_alloc 0 3 0 1 1 0', 'cal new_set_frequency_vector 3', 'cal add 3 single_reflect m 0 1 1 2 1',
+                             'cal add 3 single_reflect m 0 1 1 1 1', 'cal add 3 single_reflect m 0 1 1 0 1', 'cal solve 3', 'cal new_free 3',
+                             'cal save 0 ' + vlib.hexbytes(b'/dev/full'), 'cal free 0', 'cal live']
+        out, rc, err = vlib.run_lines(exe, fixed, timeout=300)
+        chk.evaluations += 1
+        if rc != 0 or len(out) != len(fixed):
+            chk.violation('sanitizer-empty', 'zero-frequency objects / a save to a full device: crash / sanitizer / leak report:\n%s' % err[-1500:], fixed[:len(out) + 1])
+        elif out[-1] != 'ok live=0':
+            chk.violation('residue-empty', 'allocations remain: %s' % out[-1], fixed)
+        else:
+            chk.count('empty_vectors_ok')
     # parameters that outlive a vnacal_new_t and are solved again on another grid (shorter, longer, shifted): no access beyond the new vectors
     if not chk.violations:
         from props import c02
